@@ -238,6 +238,18 @@ def run(res, tier, rng):
             if io[1] != e1 or call(T.is_valid_tld, ll.upper()) != e1 or call(T.has_valid_tld, "zz." + ll) != e1:
                 res.violation("property", "has_valid_tld / is_valid_tld do not depend on the last label only", input=dict(url=u, last=ll),
                               impl=[io[1], e1, call(T.is_valid_tld, ll.upper()), call(T.has_valid_tld, "zz." + ll)])
+    # punycode / IDN last labels next to labels of every spelling: the answer is that of the last label alone
+    idn_tlds = [t for t in D.TLDS if t.startswith("xn--") or not t.isascii()]
+    picks = rng.sample(idn_tlds, min(len(idn_tlds), 12 if tier == "quick" else 120)) + ["xn--fiqs8s", "xn--p1ai", "com", "notatld", "xn--zz"]
+    for tld in picks:
+        e1 = call(T.is_valid_tld, tld)
+        for pre in ("faguoren", "b\xfccher", "xn--bcher-kva", "xn--zz", "B\xdcCHER", "a.b\xfccher.c", "xn--ii.www"):
+            for form in (lambda h: h, lambda h: "http://" + h + "/a", lambda h: h.upper() if h.isascii() else h):
+                u = form(pre + "." + tld)
+                res.evaluations += 1
+                got = call(T.has_valid_tld, u)
+                if got != e1:
+                    res.violation("property", "has_valid_tld does not depend on the last label only", input=dict(url=u, last=tld), impl=[got, e1])
     res.extra["bundled_hosts"] = len(cand)
     res.extra["oracle_miss_tolerated"] = miss
     n1 = regexcorr.run(res, rng, names=REGEXES, exh_len=3, nrand=300 if tier == "quick" else 3000)
